@@ -104,6 +104,9 @@ def run(repo, rep):
     for api in ("mlw_encode", "mlw_reorder_encode"):
         rep.check(not analyse(api), "C07-a", f"{ENC}:{api}", f"the C entry point {api} validates the range itself in the shipped build", f"{needs.get(api + '#why')}")
     rep.floor("C07-a", 5)
+    rule_list_range_check(repo, rep, mod)
+    rule_subkernel_padding(repo, rep, enc)
+    rule_zdiv_search_space(repo, rep, enc, dec)
 
     # ---------------------------------------------------------------- b
     n_assert = 0
@@ -520,3 +523,103 @@ def _round5(repo, rep, enc):
     if n < 20:
         raise AnalysisError(f"argument / parameter name agreement: only {n} sites")
     rep.floor("C07-i", 20)
+
+
+def rule_list_range_check(repo, rep, mod_cu):
+    """(h') the list interface of method_encode narrows every element to int16_t. The range test that precedes the narrowing, evaluated as a C
+    expression on `long` probe values (integral conversions and abs() modelled), rejects exactly the values outside -255..255 - also those
+    that only look small after truncation to 32 bits."""
+    from ..cast import CEvalError, c_eval
+
+    site = f"{MOD}:method_encode"
+    body = mod_cu.body("method_encode")
+    casts = [n for n in mod_cu.walk(body) if n.get("kind") == "CStyleCastExpr" and ((n.get("type") or {}).get("qualType") == "int16_t")]
+    ifs = [n for n in mod_cu.walk(body) if n.get("kind") == "IfStmt" and "255" in mod_cu.text(n["inner"][0]) and any(x.get("kind") == "ReturnStmt" for x in mod_cu.walk(n["inner"][1]))]
+    if not casts or len(ifs) != 1:
+        raise AnalysisError(f"method_encode: narrowing cast to int16_t ({len(casts)}) / rejecting range test ({len(ifs)}) not found")
+    names = {x.get("referencedDecl", {}).get("name") for x in mod_cu.walk(ifs[0]["inner"][0]) if x.get("kind") == "DeclRefExpr" and x.get("referencedDecl", {}).get("kind") == "VarDecl"}
+    if len(names) != 1:
+        raise AnalysisError(f"method_encode: the range test reads {sorted(names)}")
+    var = names.pop()
+    probes = [-(1 << 32) - 3, -(1 << 32) + 3, -(1 << 31), -(1 << 31) + 1, -70000, -256, -255, -1, 0, 255, 256, 65791, (1 << 31) - 1, 1 << 31, (1 << 32), (1 << 32) + 5, (1 << 32) + 300]
+    wrong = []
+    for v in probes:
+        try:
+            got = bool(c_eval(ifs[0]["inner"][0], {var: v}, mod_cu))
+        except CEvalError as ex:
+            raise AnalysisError(f"method_encode: range test `{mod_cu.text(ifs[0]['inner'][0])}` not evaluable: {ex}")
+        if got != (v < -255 or v > 255):
+            wrong.append(v)
+    rep.check(not wrong, "C07-h", site, f"the range test before `(int16_t){var}` rejects exactly the values outside -255..255 ({len(probes)} long probes up to 2^32 + 300)",
+              f"`{mod_cu.text(ifs[0]['inner'][0])}` accepts {wrong[:4]}: the value is narrowed inside the test (e.g. abs() takes an int), passes, and the cast to int16_t then encodes a different, legal weight")
+
+
+def rule_subkernel_padding(repo, rep, enc):
+    """(f') reorder() pads the number of elements of a sub-kernel to what the traversal fetches per step: part-kernel-first works in groups
+    of 2 (16-bit IFM) or 4 (8-bit IFM) kernel elements, depthwise in groups of 4 whatever the IFM precision, depth-first not at all. The
+    if / else-if statement that does the padding is executed (c_exec) for every traversal, both precisions and 1..12 elements."""
+    from ..cast import CEvalError, c_exec
+
+    site = f"{ENC}:reorder"
+    body = enc.body("reorder")
+    cands = [n for n in enc.walk(body) if n.get("kind") == "IfStmt" and "is_partkernel" in enc.text(n["inner"][0]) and "subkernel_elements" in enc.text(n) and "round_up" in enc.text(n)]
+    # the outermost such statement
+    cands = [n for n in cands if not any(n is not o and any(x is n for x in enc.walk(o)) for o in cands)]
+    if len(cands) != 1:
+        raise AnalysisError(f"reorder: the statement that pads subkernel_elements was not found ({len(cands)} candidates)")
+    wrong = None
+    pts = 0
+    for pk, dw in ((1, 0), (0, 1), (0, 0)):
+        for bits in (8, 16):
+            for n in range(1, 13):
+                env = {"is_partkernel": pk, "is_depthwise": dw, "ifm_bitdepth": bits, "subkernel_elements": n}
+                try:
+                    c_exec(cands[0], env, enc)
+                except CEvalError as ex:
+                    raise AnalysisError(f"reorder: padding statement not executable: {ex}")
+                m = (2 if bits == 16 else 4) if pk else (4 if dw else 1)
+                want = -(-n // m) * m
+                pts += 1
+                if env["subkernel_elements"] != want and wrong is None:
+                    wrong = (pk, dw, bits, n, env["subkernel_elements"], want)
+    rep.check(wrong is None, "C07-f", site, f"sub-kernel elements are padded to 2 / 4 (part-kernel, 16- / 8-bit IFM), 4 (depthwise), 1 (depth-first) on {pts} points",
+              (f"is_partkernel={wrong[0]} is_depthwise={wrong[1]} ifm_bitdepth={wrong[2]}: {wrong[3]} elements become {wrong[4]}, the traversal fetches {wrong[5]}: every later weight of the stream sits at "
+               "the wrong position in hardware order") if wrong else "")
+
+
+def rule_zdiv_search_space(repo, rep, enc, dec):
+    """(d') the zero-run divisors the encoder's parameter search may select are legal in the stream: the search uses the first NZCFG entries of
+    z_grc_params (NZCFG read from the expanded `zrun_mode ? NZCFG : NWCFG`), the decoder accepts z_grc_div < 4 (its assertion, read from the
+    source: it is compiled out of the shipped build, which is why an illegal value round-trips through the project's own decoder)."""
+    from ..cast import CEvalError, c_eval
+
+    tab = None
+    for d in enc.ast.get("inner", []):
+        if d.get("kind") == "VarDecl" and d.get("name") == "z_grc_params":
+            lits = [x for x in enc.walk(d) if x.get("kind") == "IntegerLiteral"]
+            tab = [int(x["value"]) for x in lits if "value" in x]
+            # the first literal may be the array bound
+            init = [x for x in enc.walk(d) if x.get("kind") == "InitListExpr"]
+            if init:
+                tab = [int(x["value"]) for x in enc.walk(init[0]) if x.get("kind") == "IntegerLiteral"]
+    if not tab:
+        raise AnalysisError("z_grc_params not found")
+    n_cfg = None
+    for fname, fd in enc.functions.items():
+        for n in enc.walk(fd):
+            if n.get("kind") == "VarDecl" and n.get("name") == "n_cfg":
+                try:
+                    n_cfg = c_eval(n["inner"][-1], {"zrun_mode": 1}, enc)
+                except CEvalError as ex:
+                    raise AnalysisError(f"n_cfg initialiser not evaluable: {ex}")
+    if n_cfg is None:
+        raise AnalysisError("the search width `n_cfg = zrun_mode ? NZCFG : NWCFG` was not found")
+    m = re.search(r"assert\(\s*z_grc_div\s*<\s*(\d+)", dec.src)
+    if not m:
+        raise AnalysisError("the decoder's bound on z_grc_div was not found")
+    bound = int(m.group(1))
+    sel = tab[:n_cfg]
+    ok = n_cfg <= len(tab) and all((v & 15) < bound for v in sel)
+    rep.check(ok, "C07-d", f"{ENC}:search_grc_params", f"the {n_cfg} zero-run configurations searched select ZDIV values below {bound}, the ones the format defines",
+              f"searched entries {sel} of z_grc_params {tab}: ZDIV {[v & 15 for v in sel if (v & 15) >= bound]} is reserved (legal: 0..{bound - 1}, 6 = disabled, 7 = end of stream); "
+              "emitted for streams with more than about 96 % zeros; the NDEBUG decoder round-trips it, a strict one rejects the slice header")
